@@ -9,6 +9,7 @@ import (
 	"google.golang.org/protobuf/proto"
 	"io"
 	"net"
+	"net/http"
 	"os"
 	"strings"
 	"sync"
@@ -45,6 +46,12 @@ type c04Case struct {
 	// Cause (cancel mode): the caller's context was made with context.WithCancelCause and is cancelled with a
 	// cause of its own; the outcome is still a Canceled status
 	Cause bool `json:",omitempty"`
+	// ServerLimit (server-deadline mode): a request-timeout middleware in front of the library has already
+	// given the request a (much later) deadline of its own; the caller's still has to reach the handler
+	ServerLimit bool `json:",omitempty"`
+	// OpenReq (server-deadline mode, client-streaming kinds): the caller does not half-close, so the timeout
+	// header is the only way the handler can learn of the deadline
+	OpenReq bool `json:",omitempty"`
 }
 
 // manualCtx is a context whose end the harness decides: Done is closed by fire(), Err is
@@ -731,7 +738,10 @@ func c04ServerDeadline(c c04Case) *Outcome {
 	defer ctx.fire()
 	var hmu sync.Mutex
 	hret := ""
+	hdone := make(chan struct{})
+	var hdoneOnce sync.Once
 	wait := func(hctx context.Context) error {
+		defer hdoneOnce.Do(func() { close(hdone) })
 		select {
 		case <-hctx.Done():
 			hmu.Lock()
@@ -744,13 +754,23 @@ func c04ServerDeadline(c c04Case) *Outcome {
 				return fmt.Errorf("backend lookup failed: %w", hctx.Err())
 			}
 			return hctx.Err()
-		case <-time.After(stallBound):
+		case <-time.After(stallBound / 2):
 			return status.Error(codes.Internal, "harness: the caller's deadline never reached the handler")
 		}
 	}
 	svc := &Service{
 		Unary: func(hctx context.Context, req *pb.Message) (*pb.Message, error) { return nil, wait(hctx) },
 		Stream: func(kind string, stream grpc.ServerStream) error {
+			if c.OpenReq {
+				// the request side stays open: take what was sent and then wait for the deadline
+				for i := 0; i < c.NReq; i++ {
+					if err := stream.RecvMsg(new(pb.Message)); err != nil {
+						hdoneOnce.Do(func() { close(hdone) })
+						return status.Errorf(codes.Internal, "harness: request %d of %d: %v", i, c.NReq, err)
+					}
+				}
+				return wait(stream.Context())
+			}
 			for stream.RecvMsg(new(pb.Message)) == nil {
 				if !clientStreaming(kind) {
 					break
@@ -764,7 +784,21 @@ func c04ServerDeadline(c c04Case) *Outcome {
 			return wait(stream.Context())
 		},
 	}
-	car := newCarrier(c.Carrier, newServiceDesc(), svc, carrierOpts{})
+	opts := carrierOpts{}
+	if c.ServerLimit {
+		o.class("server-limit")
+		opts.WrapHandler = func(h http.Handler) http.Handler {
+			return http.HandlerFunc(func(w http.ResponseWriter, r *http.Request) {
+				lctx, cancel := context.WithTimeout(r.Context(), time.Hour)
+				defer cancel()
+				h.ServeHTTP(w, r.WithContext(lctx))
+			})
+		}
+	}
+	if c.OpenReq {
+		o.class("request-side-open")
+	}
+	car := newCarrier(c.Carrier, newServiceDesc(), svc, opts)
 	defer car.Close()
 	var results []string
 	var final error
@@ -780,6 +814,14 @@ func c04ServerDeadline(c c04Case) *Outcome {
 		}
 		for i := 0; i < c.NReq; i++ {
 			cs.SendMsg(&pb.Message{Count: int32(i)})
+		}
+		if c.OpenReq {
+			// net/http hands over the reply only once the request has ended (the half-duplex limitation recorded
+			// under C05), so the caller half-closes as soon as the handler is through
+			select {
+			case <-hdone:
+			case <-time.After(stallBound/2 + time.Second):
+			}
 		}
 		cs.CloseSend()
 		for i := 0; ; i++ {
@@ -925,6 +967,8 @@ func genC04(t *rapid.T) c04Case {
 		c.NReq, c.NResp = rapid.IntRange(0, 2).Draw(t, "sdnreq"), rapid.IntRange(0, 2).Draw(t, "sdnresp")
 		// a fraction of a millisecond on top of whole ones: the timeout header is cut to whole units
 		c.DeadlineUs = rapid.IntRange(3, 30).Draw(t, "sdms")*1000 + rapid.SampledFrom([]int{0, 500, 950}).Draw(t, "sdus")
+		c.ServerLimit = rapid.IntRange(0, 2).Draw(t, "serverlimit") == 0
+		c.OpenReq = clientStreaming(c.Kind) && rapid.Bool().Draw(t, "openreq")
 		return c
 	}
 	c.Mode = rapid.SampledFrom([]string{"cancel", "cancel", "deadline"}).Draw(t, "mode")
